@@ -24,7 +24,7 @@ RULES = {
     'R13': 'a notifier is not looked at after its callback was called: in every loop that walks a notifier list and calls the callbacks, no field of the notifier and no link of its list element is read on the way from the call to the next iteration (the callback may have unregistered - freed - its own notifier); the trie, whose notifiers are reference counted, holds a reference instead',
     'R14': 'the removal marker goes with the entry: a trie node can outlive its entry (as an inner node, or because notifiers are registered on it), so the function that takes the entry out of a node (stores no value into it) leaves the node unmarked on every path - a node left marked as removed is taken by the next put of that key for an entry that parked iterators still hold: DELETED and FREE are announced for a key and a value that do not exist',
     'R15': 'a removed entry is gone for the dictionary operations even while an iterator still pins its node (= C18.R8): every lookup by key (get, put, rm) accepts a node only if it is not marked removed, and a removal marks or unlinks',
-    'R16': 'arguments mean what the interface says: (a) the three notify_del implementations compare the user data only when asked to (qb_map_notify_del removes whatever the user data, qb_map_notify_del_2 only the matching one): a removal is reachable under cmp_userdata == 0; (b) key lookups of the trie are exact, the prefix iterator\'s lookup of its root is by prefix; (c) skiplist_put hands the header only to the levels above the list\'s present level - the levels the search filled in are kept',
+    'R16': 'arguments mean what the interface says: (a) the three notify_del implementations compare the user data only when asked to (qb_map_notify_del removes whatever the user data, qb_map_notify_del_2 only the matching one): a removal is reachable under cmp_userdata == 0; (b) key lookups of the trie are exact, the prefix iterator\'s lookup of its root is by prefix; (c) skiplist_put hands the header only to the levels above the list\'s present level - the levels the search filled in are kept; (d) the REPLACED notification of the three put functions does not read the node\'s value field after the new value was stored there',
 }
 FLOORS = {'R16': 8, 'R15': 2, 'R1': 3, 'R2': 6, 'R3': 6, 'R4': 6, 'R5': 9, 'R6': 3, 'R7': 4, 'R8': 3, 'R9': 1, 'R10': 3, 'R11': 1, 'R12': 6, 'R13': 4, 'R14': 1}
 
@@ -656,6 +656,29 @@ def r16(ctx):
         ctx.check('R16', '%s:removes-without-comparing-when-not-asked' % name, bool(uncond), dels[0],
                   'a notifier is removed whatever its user data when cmp_userdata is 0',
                   'no removal is reachable under cmp_userdata == 0: qb_map_notify_del() of a notifier that was registered with user data finds nothing (-ENOENT) and the notifier keeps firing')
+    # (d) a replacement is announced with the value that was replaced: an argument of the REPLACED notification that reads the node's
+    # value field is evaluated before the new value is stored there (otherwise old == new: the old value is never released, the new one twice)
+    REPL = 2        # QB_MAP_NOTIFY_REPLACED (a #define in qbmap.h; macro_named() recognises the spelling where the extractor kept it)
+    nrep = 0
+    for name in ('skiplist_put', 'hashtable_put', 'trie_put'):
+        f = prog.fn(name)
+        for ev in f.events('CALL'):
+            if not (ev.callee or '').endswith('notify') or not any(macro_named(a, 'QB_MAP_NOTIFY_REPLACED') or cval(unwrap(a)) == REPL for a in ev.args[1:4]):
+                continue
+            nrep += 1
+            stale = []
+            for a in ev.args[-2:-1]:        # (..., key, old value, new value)
+                au = unwrap(a)
+                if au.get('k') == 'mem' and au.get('f') == 'value':
+                    sts = [st for st in f.events('STORE') if last_field(st.lhs) == (au.get('rec'), 'value') and f.may_follow(st, ev)]
+                    if sts:
+                        stale.append(estr(a))
+            ctx.check('R16', '%s:replaced-announced-with-the-old-value' % name, not stale, ev,
+                      'the REPLACED notification does not read the value field after the new value was stored',
+                      'the REPLACED notification is handed %s, read after the new value was stored in that field: old and new are the same, the value that was replaced is never '
+                      'released and the new one is released twice' % ', '.join(stale))
+    if nrep < 3:
+        raise AnalysisBroken('put functions: %d REPLACED notifications found' % nrep)
     # (b) trie lookups
     n = 0
     seen = set()
